@@ -721,6 +721,14 @@ func (e *Engine) decide(w *Worker, st *State, kind, desc string, lits []*Term) i
 		}
 		return feas[0]
 	}
+	if e.cfg.Trace {
+		fmt.Printf("FORK %s %s feas=%v pc=%v lits=%v\n", kind, desc, feas, st.pc, lits)
+		for i, m := range models {
+			if m != nil {
+				fmt.Printf("   model[%d]=%v\n", i, m.Vals)
+			}
+		}
+	}
 	panic(forkReq{kind: kind, desc: desc, alts: feas, lits: lits, models: models})
 }
 
